@@ -329,3 +329,8 @@ def controls(ctx, rep):
                 if rv['k'] == 'agg' and rv.get('ak') == 'adt' and path_matches(rv['adt'], 'c19::Inst'):
                     got = nanos_guard_ok(fn, bb, rv['ops'][rv['fields'].index('nanos')])
         rep.control('R19.c guard recogniser on %s is %s' % (name, want), got is want, 'got %r' % got)
+
+
+def thorough_extra(ctx, rep):
+    from rules import witness
+    witness.report(rep, 'W19')
